@@ -46,6 +46,8 @@ _PA = re.compile(r"Print\s+Assumptions\s+([A-Za-z0-9_'.]+)\s*\.")
 
 
 def parse_print_assumptions(src: str, out: str) -> dict[str, list[str]]:
+    """Coq prints, per `Print Assumptions t.`, either `Closed under the global context` or `Axioms:` followed by
+    one entry per axiom: `name : type` or, when wrapped, `name` alone with the type on indented lines."""
     names = _PA.findall(src)
     blocks: list[list[str]] = []
     cur: list[str] | None = None
@@ -57,10 +59,12 @@ def parse_print_assumptions(src: str, out: str) -> dict[str, list[str]]:
             cur = []
             blocks.append(cur)
         elif cur is not None:
-            m = re.match(r"^([A-Za-z_][A-Za-z0-9_'.]*)\s*:", line)
+            if not line.strip() or line[0] in " \t":
+                continue   # continuation of a type
+            m = re.match(r"^([A-Za-z_][A-Za-z0-9_'.]*)(\s*:.*)?$", line)
             if m:
                 cur.append(m.group(1))
-            elif line and not line.startswith(" "):
+            else:
                 cur = None
     res = {}
     for i, n in enumerate(names):
